@@ -50,7 +50,18 @@ inline Q fromR(const Rational& r) { Q q; mpq_set(q.get_mpq_t(), r.backend().data
   catch (const std::exception& e) { throw Exc{std::string(typeid(e).name()) + ": " + e.what()}; }
   catch (...) { throw Exc{"unknown exception"}; }
 }
-#define SUT_TRY try {
+#if defined(__SANITIZE_THREAD__)
+extern "C" { void AnnotateIgnoreReadsBegin(const char*, int); void AnnotateIgnoreReadsEnd(const char*, int); void AnnotateIgnoreWritesBegin(const char*, int); void AnnotateIgnoreWritesEnd(const char*, int); }
+extern thread_local int tsan_ignoring;   // > 0: this thread is a task thread currently ignoring accesses
+struct TsanWindow {
+  bool on;
+  TsanWindow() : on(tsan_ignoring > 0) { if (on) { AnnotateIgnoreReadsEnd(__FILE__, __LINE__); AnnotateIgnoreWritesEnd(__FILE__, __LINE__); tsan_ignoring = 0; } }
+  ~TsanWindow() { if (on) { AnnotateIgnoreReadsBegin(__FILE__, __LINE__); AnnotateIgnoreWritesBegin(__FILE__, __LINE__); tsan_ignoring = 1; } }
+};
+#else
+struct TsanWindow { };
+#endif
+#define SUT_TRY try { TsanWindow tsan_window_; (void)tsan_window_;
 #define SUT_END } catch (...) { rethrow_as_exc(); }
 
 inline DSVector toDS(const SVec& v) { DSVector d((int)v.idx.size() + 1); for (size_t k = 0; k < v.idx.size(); k++) d.add(v.idx[k], v.val[k]); return d; }
